@@ -534,14 +534,22 @@ def check(actors, cfg):
                                  "events": [s["open"].brief(t_base), x.brief(t_base), s["last"].brief(t_base)]})
     bump("reader_writer_pairs_on_plainly_written_files", len(considered))
 
-    # files that readers got through an atomic rename
+    # files that readers got through an atomic rename (of the file itself or of a directory above it)
+    renamed_dirs = [(p, who) for p, who in renamed_into.items()]
     for b in actors:
         seen = set()
         for e in b.events:
-            if e.kind in ("openr", "read") and e.ok and e.path in renamed_into and e.path not in seen:
-                if any(an != b.name for an, _ in renamed_into[e.path]):
-                    seen.add(e.path)
-                    bump("reads_of_rename_published_files")
+            if e.kind in ("openr", "read") and e.ok and e.path not in seen and e.path:
+                if e.path in renamed_into:
+                    if any(an != b.name for an, _ in renamed_into[e.path]):
+                        seen.add(e.path)
+                        bump("reads_of_rename_published_files")
+                else:
+                    for d, who in renamed_dirs:
+                        if e.path.startswith(d + "/") and any(an != b.name and t <= e.t0 for an, t in who):
+                            seen.add(e.path)
+                            bump("reads_below_rename_published_dirs")
+                            break
 
     # ---- population units (R2) -------------------------------------------------------------------
     for a in actors:
@@ -640,24 +648,41 @@ def check(actors, cfg):
                 written.setdefault(e.path, set()).add(a.name)
     shared = [p for p, s in touched.items() if len(s) >= 2 and p in written]
     stats["shared_written_paths"] = len(shared)
-    # critical sections interleaved: on some shared path-class both actors were active in overlapping windows
-    win = {}
+    # critical sections interleaved: on some shared *area* (same root directory + path class, with at least one
+    # write-type event in it by anybody) two actors were active in overlapping time windows.  Areas, not single
+    # paths: a writer that populates a private name and renames it still works in the area the reader polls.
+    def root_of(p):
+        cache = cfg.get("cache_root")
+        if cache and (p == cache or p.startswith(cache + "/")):
+            return cache
+        for prj in cfg.get("projects", []):
+            if p == prj or p.startswith(prj + "/"):
+                return prj
+        return None
+
+    win, area_written = {}, set()
     for a in actors:
         for e in a.events:
-            if e.path in touched and len(touched[e.path]) >= 2 and e.path in written:
-                k = (path_class(e.path, cfg), a.name)
-                lo, hi = win.get(k, (e.t0, e.t1))
-                win[k] = (min(lo, e.t0), max(hi, e.t1))
+            if not interesting(e.path):
+                continue
+            area = (root_of(e.path), path_class(e.path, cfg))
+            if e.kind in ("openw", "write", "mkdir", "rename", "unlink") and e.ok:
+                area_written.add(area)
+            k = (area, a.name)
+            lo, hi = win.get(k, (e.t0, e.t1))
+            win[k] = (min(lo, e.t0), max(hi, e.t1))
     classes = {}
-    for (c, an), w in win.items():
-        classes.setdefault(c, {})[an] = w
+    for (area, an), w in win.items():
+        if area in area_written and area[1] != "source":
+            classes.setdefault(area[1], {}).setdefault(area[0], {})[an] = w
     il = set()
-    for c, d in classes.items():
-        ns = list(d)
-        for i in range(len(ns)):
-            for j in range(i + 1, len(ns)):
-                if max(d[ns[i]][0], d[ns[j]][0]) < min(d[ns[i]][1], d[ns[j]][1]):
-                    il.add(c)
+    for c, roots in classes.items():
+        for d in roots.values():
+            ns = list(d)
+            for i in range(len(ns)):
+                for j in range(i + 1, len(ns)):
+                    if max(d[ns[i]][0], d[ns[j]][0]) < min(d[ns[i]][1], d[ns[j]][1]):
+                        il.add(c)
     stats["interleaved_classes"] = sorted(il)
     stats["critical_sections_interleaved"] = 1 if il else 0
     stats["events"] = sum(len(a.events) for a in actors)
